@@ -400,7 +400,57 @@ def gen_item(rng, idx, earlier, force=None):
     if not it['generic']:
         it['params'] = []
     rawify(it, idx)
+    if it['init']:
+        add_hook_fields(it, idx)
     return it
+
+
+# ---- the init hook made observable on the decoded VALUE: items with `init` get two skipped fields the hook rewrites,
+#      `init_calls: u32` (incremented) and `init_sum: u64` (a checksum of the non-skipped integer / bool fields of the
+#      object the hook is called on).  After decoding they must hold exactly what ONE call on the decoded object produces.
+SUMMABLE = ('u8', 'u16', 'u32', 'u64', 'u128', 'i8', 'i16', 'i32', 'i64', 'i128', 'bool')
+
+
+def _hook_field(role, name):
+    return {'name': name, 'skip': True, 'with': None, 'param': None, 'hook': role,
+            'ty': P('u32') if role == 'calls' else P('u64')}
+
+
+def _insert_hook_fields(fields, shape, where):
+    """where: 0 = both at the end, 1 = both at the front, 2 = counter first, checksum last"""
+    c, m = _hook_field('calls', 'init_calls'), _hook_field('sum', 'init_sum')
+    out = {0: fields + [c, m], 1: [c, m] + fields, 2: [c] + fields + [m]}[where]
+    if shape == 'tuple':
+        for i, f in enumerate(out):
+            f['name'] = str(i)
+    return out
+
+
+def add_hook_fields(it, idx):
+    """No random draws (the rest of the seeded corpus stays what it was).  Unit structs / unit variants cannot hold them:
+    there the hook only bumps the per-type counter."""
+    if it['kind'] == 'struct':
+        if it['shape'] != 'unit':
+            it['fields'] = _insert_hook_fields(it['fields'], it['shape'], idx % 3)
+    elif it['kind'] == 'enum':
+        for vi, v in enumerate(it['variants']):
+            if v['shape'] != 'unit':
+                v['fields'] = _insert_hook_fields(v['fields'], v['shape'], (idx + vi) % 3)
+
+
+def hook_fields(fields):
+    c = [f for f in fields if f.get('hook') == 'calls']
+    m = [f for f in fields if f.get('hook') == 'sum']
+    return (c[0], m[0]) if c and m else None
+
+
+def checksum_expr(fields, acc):
+    """acc(i, f) -> Rust expression of the field's value; wrapping, position-weighted, never 0 for an empty list"""
+    e = '0x5EEDu64'
+    for i, f in enumerate(fields):
+        if not f['skip'] and f.get('param') is None and f['ty'][0] == 'prim' and f['ty'][1] in SUMMABLE:
+            e += '.wrapping_add((%s as u64).wrapping_mul(%d))' % (acc(i, f), i + 1)
+    return e
 
 
 def all_item_fields(it):
@@ -624,7 +674,10 @@ def field_attr_rust(f):
         if ms:
             attrs = ['(%s)' % ' '.join(ms)]
         attrs += f.get('extra_attrs', [])
-    return ' '.join(sexp_attr_to_rust(a) for a in attrs)
+    out = ' '.join(sexp_attr_to_rust(a) for a in attrs)
+    if f.get('params_text'):          # the model's `(schema 1 ..)` only says "params given"; the source needs the entries
+        out = out.replace('params = ""', 'params = "%s"' % f['params_text'])
+    return out
 
 
 def field_rust(f, named, vis='pub '):
@@ -687,9 +740,60 @@ def rust_item(it, derives=('BorshSerialize', 'BorshDeserialize'), extra_derives=
         lines.append('pub type %s = %s<%s>;' % (it['name'], ident(it), ', '.join(rust(t) for _, t in it['params'])))
     if it.get('init'):
         lines.append('pub static INIT_%s: std::sync::atomic::AtomicU32 = std::sync::atomic::AtomicU32::new(0);' % it['name'].upper())
-        lines.append('impl%s %s%s { pub fn init_hook(&mut self) { INIT_%s.fetch_add(1, std::sync::atomic::Ordering::SeqCst); } }'
-                     % (gen, ident(it), gen, it['name'].upper()))
+        lines.append('impl%s %s%s { pub fn init_hook(&mut self) { INIT_%s.fetch_add(1, std::sync::atomic::Ordering::SeqCst);%s } }'
+                     % (gen, ident(it), gen, it['name'].upper(), hook_body(it)))
     return '\n'.join(lines)
+
+
+def hook_body(it):
+    """the part of the hook that rewrites the object it is called on (empty when the item has no hook fields)"""
+    if it['kind'] == 'struct':
+        h = hook_fields(it['fields'])
+        if not h:
+            return ''
+        c, m = h
+        return ' self.%s = self.%s.wrapping_add(1); self.%s = %s;' % (
+            c['name'], c['name'], m['name'], checksum_expr(it['fields'], lambda i, f: 'self.%s' % f['name']))
+    if it['kind'] != 'enum' or not any(hook_fields(v['fields']) for v in it['variants']):
+        return ''
+    arms = []
+    for v in it['variants']:
+        h = hook_fields(v['fields'])
+        pat = _pattern('%s::%s' % (ident(it), v['name']), v['shape'], v['fields'])
+        if not h:
+            arms.append('%s => {}' % pat)
+            continue
+        ci, mi = v['fields'].index(h[0]), v['fields'].index(h[1])
+        arms.append('%s => { *m%d = m%d.wrapping_add(1); *m%d = %s; }' % (
+            pat, ci, ci, mi, checksum_expr(v['fields'], lambda i, f: '(*m%d)' % i)))
+    return ' match self { %s }' % ' '.join(arms)
+
+
+def skipped_check_body(it):
+    """Rust statements pushing onto `bad` one text per skipped field of `self` that does not hold what a freshly decoded
+    object must hold: Default::default(); for the two hook fields 1 and the checksum of the object's own fields."""
+    def one(fields, place, num):
+        # place(i, f): the field as a place expression (auto-ref'd by method calls); num(i, f): its value
+        out = []
+        for i, f in enumerate(fields):
+            if not f['skip']:
+                continue
+            if f.get('hook') == 'calls':
+                out.append('if %s != 1u32 { bad.push(format!("%s (hook calls seen by the object) = {}, expected 1", %s)); }' % (num(i, f), f['name'], num(i, f)))
+            elif f.get('hook') == 'sum':
+                out.append('{ let want: u64 = %s; if %s != want { bad.push(format!("%s (checksum written by the hook) = {}, expected {}", %s, want)); } }'
+                           % (checksum_expr(fields, num), num(i, f), f['name'], num(i, f)))
+            else:
+                out.append('if %s.to_val() != <%s as Default>::default().to_val() { bad.push(format!("skipped field %s = {}, expected Default", show(&%s.to_val()))); }'
+                           % (place(i, f), _fty(f), f['name'], place(i, f)))
+        return out
+    if it['kind'] == 'struct':
+        return ' '.join(one(it['fields'], lambda i, f: 'self.%s' % f['name'], lambda i, f: 'self.%s' % f['name']))
+    arms = []
+    for v in it['variants']:
+        pat = _pattern('%s::%s' % (ident(it), v['name']), v['shape'], v['fields'])
+        arms.append('%s => { %s }' % (pat, ' '.join(one(v['fields'], lambda i, f: 'm%d' % i, lambda i, f: '(*m%d)' % i))))
+    return 'match self { %s }' % ' '.join(arms)
 
 
 def _ctor(path, shape, fields, exprs):
@@ -712,7 +816,7 @@ def _fty(f):
     return rust(f['ty'])
 
 
-def rust_model(it):
+def rust_model(it, schema=False):
     """`impl Model` + `impl ItemExt` for the (instantiated) item."""
     name = it['name']
     T = name
@@ -760,6 +864,11 @@ def rust_model(it):
     L.append('}')
     # ItemExt
     L.append('impl ItemExt for %s {' % T)
+    if any(f['skip'] for f in all_item_fields(it)):
+        L.append('    fn skipped_check(&self) -> Vec<String> { let mut bad: Vec<String> = Vec::new(); %s bad }' % skipped_check_body(it))
+    if schema:
+        L.append('    fn schema_ok() -> Option<String> { let c = borsh::schema::BorshSchemaContainer::for_type::<Self>(); '
+                 'Some(match c.validate() { Ok(()) => format!("ok {}", c.declaration()), Err(e) => format!("invalid {:?}", e) }) }')
     if it.get('init'):
         L.append('    fn init_calls() -> Option<u32> { Some(INIT_%s.load(std::sync::atomic::Ordering::SeqCst)) }' % name.upper())
         L.append('    fn reset_init() { INIT_%s.store(0, std::sync::atomic::Ordering::SeqCst); }' % name.upper())
@@ -835,14 +944,16 @@ def value_ty(it):
     return doc_ty(it, sem=False)
 
 
-def emit_items_rs(items):
+def emit_items_rs(items, derives=None):
+    """derives: default BorshSerialize + BorshDeserialize; with 'BorshSchema' in it the items also get `schema_ok`"""
+    derives = derives or ('BorshSerialize', 'BorshDeserialize')
     out = ['// GENERATED by gen/items.py -- do not edit.',
            '#![allow(dead_code, unused_imports, unused_variables, unused_mut, non_camel_case_types, non_snake_case, unused_parens, clippy::all)]',
-           'use crate::model::Model;', 'use crate::val::Val;', 'use crate::ItemExt;',
+           'use crate::model::Model;', 'use crate::val::{show, Val};', 'use crate::ItemExt;',
            'use std::collections::{BTreeMap, BTreeSet, LinkedList, VecDeque};', '']
     for it in items:
-        out.append(rust_item(it))
-        out.append(rust_model(it))
+        out.append(rust_item(it, derives=derives))
+        out.append(rust_model(it, schema='BorshSchema' in derives))
         out.append('')
     out.append('pub fn catalogue() -> Vec<crate::ItemEntry> {')
     out.append('    let mut v: Vec<crate::ItemEntry> = Vec::new();')
@@ -955,6 +1066,30 @@ def mutations(bases):
         if not item_metas(it):
             it['attrs_override'] = ['()', '((crate (str borsh 1)))']
         add('repeated', nm + ' item two attributes (second meaningful)', it)
+        # --- the same key twice inside ONE item-level attribute (refused since 922f373; before it the last
+        #     occurrence silently won): every key the item carries, and `crate`, at the front / the back / around the
+        #     other (legal) entries
+        legal = item_metas(base)
+        CR = '(crate (str borsh 1))'
+        for metas, what in ([(legal + [CR, CR], 'crate twice at the end')] + ([([CR] + legal + [CR], 'crate at both ends')] if legal else []) +
+                            [(legal[:j + 1] + [m] + legal[j + 1:], '%s twice in a row' % parse_s(m)[0]) for j, m in enumerate(legal)] +
+                            [([m] + [CR] + [x for x in legal if x != m] + [m], '%s first and last' % parse_s(m)[0]) for m in legal]):
+            it = _copy(base)
+            it['attrs_override'] = ['(%s)' % ' '.join(metas)]
+            add('repeated-key', nm + ' item ' + what, it)
+        if base['kind'] == 'enum' and base['use_disc'] is not None:
+            other = '(usedisc %s)' % ('false' if base['use_disc'] else 'true')
+            it = _copy(base)
+            it['attrs_override'] = ['(%s)' % ' '.join(legal + [other])]
+            add('repeated-key', nm + ' item use_discriminant = true and = false', it)
+            it = _copy(base)
+            it['attrs_override'] = ['(%s)' % ' '.join([other] + legal)]
+            add('repeated-key', nm + ' item use_discriminant = false and = true', it)
+        if base['kind'] == 'enum' and base['use_disc'] is None:
+            for a, b in (('false', 'false'), ('true', 'false'), ('false', 'true')):
+                it = _copy(base)
+                it['attrs_override'] = ['(%s)' % ' '.join(['(usedisc %s)' % a] + legal + ['(usedisc %s)' % b])]
+                add('repeated-key', nm + ' item use_discriminant = %s, .., use_discriminant = %s' % (a, b), it)
         if base['kind'] == 'struct':
             for v in ('true', 'false'):
                 it = _copy(base)
@@ -1045,6 +1180,26 @@ def mutations(bases):
             f = _get_field(it, path)
             f['attrs_override'] = (_plain_field_attr(f, []) if field_attr_metas(f) else ['()']) + ['((bound 1 1))']
             add('repeated', where + ' two attributes', it)
+            # the same key twice inside ONE field attribute, next to the field's own (legal) entries
+            own = field_attr_metas(f0)
+            B = '(bound 1 1)'
+            dups = [(own + [B, B], 'bound twice at the end'), (['(bound 1 0)'] + own + ['(bound 0 1)'], 'bound at both ends')]
+            if f0['skip']:
+                dups += [(own + ['skip'], 'skip twice'), (own + [B, 'skip'], 'skip, bound, skip')]
+            else:
+                SP, SW = '(schema 1 none)', '(schema 0 (wf 1 1))'
+                dups += [(own + [SP, SP], 'schema(params) twice'), ([SW] + own + [B, SW], 'schema(with_funcs) at both ends'),
+                         ([SP] + own + [SW], 'schema(params) and schema(with_funcs) as two entries')]
+            if f0['with'] is not None:
+                dups += [(own + [own[-2]], 'serialize_with again at the end'), ([own[-1]] + own, 'deserialize_with again at the front')]
+            elif not f0['skip']:
+                SE, DE = '(serwith crate::withfns::any_ser %s)' % tys, '(dewith crate::withfns::any_de %s)' % tys
+                dups += [([SE, SE], 'serialize_with twice'), ([DE, B, DE], 'deserialize_with, bound, deserialize_with')]
+            for metas, what in dups:
+                it = _copy(base)
+                f = _get_field(it, path)
+                f['attrs_override'] = ['(%s)' % ' '.join(metas)]
+                add('repeated-key', where + ' ' + what, it)
     # --- whole-item shapes
     big = {'name': 'Big257', 'kind': 'enum', 'init': False, 'use_disc': None, 'generic': False, 'params': [],
            'variants': [{'name': 'V%d' % i, 'discr': None, 'shape': 'unit', 'fields': [], 'attrs': []} for i in range(257)]}
